@@ -242,4 +242,7 @@ impl std::fmt::Display for Cell2 {""", """        let cell = Cell2 {
 }
 
 impl std::fmt::Display for Cell2 {""")),
+    B('step-cap-by-branch-guard', ['C19', 'C20'],
+      (OPT, '                step_ratio = f64::min(\n                    step_ratio * (self.inner_steps as f64 / (loop_rejections as f64 + 1.)),\n                    1.,\n                );',
+       '                let factor = self.inner_steps as f64 / (loop_rejections as f64 + 1.);\n                if factor < 1. {\n                    step_ratio *= factor;\n                }')),
 ]
